@@ -107,3 +107,21 @@ contract("C18.get_data_file", file="hed/tools/remodeling/dispatcher.py", func="D
              "C18.remodel.reads_the_named_file_without_backups": "implies(self.backup_man is None, read_path == file_designator)",
          },
          assume=["only the path form of file_designator is covered (a DataFrame is copied)"])
+
+# C18 "never lists a backup whose recorded files are missing": the consistency check hands back, as its third value, exactly the recorded
+# copies that are NOT among the files of the backup tree, and as its second the files of the tree that the record does not name -
+# _get_backups refuses a backup for which either is non-empty
+contract("C18.consistency_reports_missing_copies_and_extra_files", file="hed/tools/remodeling/backup_manager.py",
+         func="BackupManager._check_backup_consistency",
+         params={"self": "Opaque", "backup_name": "Opaque"}, returns="Tuple[Opaque,List[Str],List[Str]]", enc="native",
+         locals={"backup_paths": "Set[Str]", "file_paths": "Set[Str]"},
+         raises={"HedFileError": True, "FileNotFoundError": True},
+         ghost={"update": [("assign:backup_paths", "g_recorded = backup_paths"), ("assign:file_paths", "g_present = file_paths")]},
+         ensures={
+             "C18.consistency.third_is_recorded_but_missing":
+                 "forall_str(lambda p: (p in result[2]) == (p in g_recorded and p not in g_present))",
+             "C18.consistency.second_is_present_but_unrecorded":
+                 "forall_str(lambda p: (p in result[1]) == (p in g_present and p not in g_recorded))",
+         },
+         assume=["backup_paths / file_paths (built from os.path, json and the directory walk) are arbitrary sets of path texts: the clauses speak "
+                 "about how the two are compared, not how they are obtained"])
